@@ -4,8 +4,10 @@ import (
 	"fmt"
 	"go/types"
 	"math/big"
+	"os"
 	"sort"
 	"strings"
+	"time"
 
 	"golang.org/x/tools/go/ssa"
 )
@@ -88,6 +90,7 @@ func (e *Engine) verifyFunc(fn *ssa.Function, c *Contract, prop string) (rep *Fu
 	e.paths = 0
 	e.curFn = fn
 	e.curContract = c
+	e.curProp = prop
 	e.mode = "verify"
 	if c.NoPanic {
 		e.mode = "nopanic"
@@ -104,6 +107,13 @@ func (e *Engine) verifyFunc(fn *ssa.Function, c *Contract, prop string) (rep *Fu
 		}
 	}()
 	st := e.newState()
+	e.deadline = time.Now().Add(time.Duration(e.funcBudgetS) * time.Second)
+	if os.Getenv("GOVC_DEBUG") != "" {
+		t0 := time.Now()
+		defer func() {
+			fmt.Fprintf(os.Stderr, "[govc] %-70s %6.1fs paths=%d obls=%d\n", key, time.Since(t0).Seconds(), e.paths, len(e.obls))
+		}()
+	}
 	var pkg *types.Package
 	if fn.Pkg != nil {
 		pkg = fn.Pkg.Pkg
@@ -132,6 +142,9 @@ func (e *Engine) verifyFunc(fn *ssa.Function, c *Contract, prop string) (rep *Fu
 		}
 	}
 	for _, r := range c.Requires {
+		if len(r.Props) > 0 && prop != "" && !contains(r.Props, prop) {
+			continue
+		}
 		env := &SpecEnv{e: e, pre: st, post: st, vars: vars, pkg: pkg, paramsFirst: true}
 		st.assume(env.evalBool(r.E))
 	}
@@ -251,6 +264,8 @@ func (e *Engine) resolveFrame(c *Contract, vars map[string]SVal, pkg *types.Pack
 					}
 				case "big":
 					fi.objs = append(fi.objs, frameObj{"BigVal", v.V.T})
+				case "dyn":
+					fi.all = true
 				case "obj":
 					pt, ok := v.T.Underlying().(*types.Pointer)
 					if !ok {
